@@ -157,4 +157,334 @@ theorem spec_prefix (A B : List Call) (hB : TopLevel B) : ∃ extra, (spec (A ++
   simp only [spec, List.foldl_append]
   exact foldl_specStep_mono B hB _
 
+/-! ### where rows come from, and which rows must be there -/
+
+/-- the record a call binds -/
+def rowOf (c : Call) : Option Row :=
+  match callExec c with
+  | some (t, _) => some ⟨t, c.key, c.val⟩
+  | none => none
+
+theorem rowOf_shape {c : Call} {t : Nat} {pol : Policy} {rest : List Prim} (h : c.ops = .exec t pol :: rest) :
+    rowOf c = some ⟨t, c.key, c.val⟩ := by
+  simp [rowOf, callExec, h]
+
+/-- one reference step either leaves the table alone or appends exactly the call's record under a fresh key -/
+theorem specStep_rows (st : List Row × List Nat) (c : Call) (hc : wfInsertPath c.ops = true) :
+    (specStep st c).1 = st.1 ∨
+    ∃ row, rowOf c = some row ∧ hasKey st.1 row.table row.key = false ∧ (specStep st c).1 = st.1 ++ [row] := by
+  obtain ⟨t, pol, hp, hops⟩ := wf_shape hc
+  rw [specStep_shape st c t pol _ hops]
+  cases hins : insertRow pol ⟨t, c.key, c.val⟩ st.1 with
+  | none => left; rfl
+  | some rows =>
+    rcases insertRow_mono hp hins with h | ⟨hk, h⟩
+    · left; simp [h]
+    · right; exact ⟨⟨t, c.key, c.val⟩, rowOf_shape hops, hk, by simp [h]⟩
+
+/-- a fresh key is always stored, whatever the conflict clause -/
+theorem specStep_fresh (st : List Row × List Nat) (c : Call) (hc : wfInsertPath c.ops = true) (row : Row)
+    (hr : rowOf c = some row) (hk : hasKey st.1 row.table row.key = false) :
+    (specStep st c).1 = st.1 ++ [row] ∧ (specStep st c).2 = st.2 ++ [c.id] := by
+  obtain ⟨t, pol, hp, hops⟩ := wf_shape hc
+  rw [rowOf_shape hops] at hr
+  cases hr
+  rw [specStep_shape st c t pol _ hops]
+  simp only [insertRow]
+  simp only [] at hk
+  simp [hk]
+
+/-- after an OR IGNORE insert the key is present (its own record or the earlier one) -/
+theorem specStep_key (st : List Row × List Nat) (c : Call) (t : Nat) (rest : List Prim)
+    (hops : c.ops = .exec t .orIgnore :: rest) : hasKey (specStep st c).1 t c.key = true := by
+  rw [specStep_shape st c t .orIgnore _ hops]
+  cases hins : insertRow .orIgnore ⟨t, c.key, c.val⟩ st.1 with
+  | none => simp [insertRow] at hins; split at hins <;> simp at hins
+  | some rows => exact insertRow_hasKey (by decide) hins
+
+theorem foldl_specStep_origin (W : List Call) (hW : TopLevel W) :
+    ∀ (st : List Row × List Nat) (r : Row), r ∈ (W.foldl specStep st).1 →
+      r ∈ st.1 ∨ ∃ c ∈ W, rowOf c = some r := by
+  induction W with
+  | nil => intro st r h; left; simpa using h
+  | cons c cs ih =>
+    intro st r h
+    rcases ih (fun x hx => hW x (by simp [hx])) (specStep st c) r (by simpa using h) with h1 | ⟨c', hc', hr⟩
+    · rcases specStep_rows st c (hW c (by simp)) with e | ⟨row, hrow, _, e⟩
+      · left; rw [e] at h1; exact h1
+      · rw [e] at h1
+        rcases List.mem_append.mp h1 with h2 | h2
+        · left; exact h2
+        · right; exact ⟨c, by simp, by simp at h2; rw [h2]; exact hrow⟩
+    · right; exact ⟨c', by simp [hc'], hr⟩
+
+/-- every stored record is the record of some call of the workload, complete -/
+theorem spec_origin (W : List Call) (hW : TopLevel W) (r : Row) (h : r ∈ (spec W).1) :
+    ∃ c ∈ W, rowOf c = some r := by
+  rcases foldl_specStep_origin W hW ([], []) r h with h1 | h1
+  · simp at h1
+  · exact h1
+
+theorem hasKey_exists {rows : List Row} {t k : Nat} (h : hasKey rows t k = true) :
+    ∃ r ∈ rows, r.table = t ∧ r.key = k := by
+  simp only [hasKey, List.any_eq_true, sameKey, Bool.and_eq_true, beq_iff_eq] at h
+  exact h
+
+theorem hasKey_of_mem {rows : List Row} {r : Row} (h : r ∈ rows) : hasKey rows r.table r.key = true := by
+  simp only [hasKey, List.any_eq_true, sameKey, Bool.and_eq_true, beq_iff_eq]
+  exact ⟨r, h, rfl, rfl⟩
+
+theorem take_split {α : Type} (W : List α) (i m : Nat) (c : α) (hi : W[i]? = some c) (him : i < m) :
+    ∃ rest, W.take m = W.take i ++ [c] ++ rest := by
+  refine ⟨(W.take m).drop (i + 1), ?_⟩
+  have h1 : (W.take m).take (i + 1) = W.take (i + 1) := by
+    rw [List.take_take]; congr 1; omega
+  have h2 := List.take_append_drop (i + 1) (W.take m)
+  rw [h1, take_succ_getElem W i c hi] at h2
+  exact h2.symm
+
+theorem topLevel_append_right {A B : List Call} (h : TopLevel (A ++ B)) : TopLevel B :=
+  fun c hc => h c (List.mem_append.mpr (Or.inr hc))
+
+/-! ### dependencies between records (token → previous token, metadata → token, attestation → metadata) -/
+
+/-- every stored record's dependency is stored too -/
+def Closed (dep : Nat → Nat → Option (Nat × Nat)) (rows : List Row) : Prop :=
+  ∀ r ∈ rows, ∀ d, dep r.table r.key = some d → hasKey rows d.1 d.2 = true
+
+/-- the workload writes a record only after the record it points to (as the crash-free store would show it) -/
+def Causal (dep : Nat → Nat → Option (Nat × Nat)) (W : List Call) : Prop :=
+  ∀ i c, W[i]? = some c → ∀ row, rowOf c = some row → ∀ d, dep row.table row.key = some d →
+    hasKey (spec (W.take i)).1 d.1 d.2 = true
+
+/-- a chain of dependencies inside `rows` ends at a record without dependency (genesis), as TokenTree.verify walks it -/
+inductive Reaches (dep : Nat → Nat → Option (Nat × Nat)) (rows : List Row) : Nat → Nat → Prop
+  | genesis {t k : Nat} : hasKey rows t k = true → dep t k = none → Reaches dep rows t k
+  | step {t k : Nat} {d : Nat × Nat} : hasKey rows t k = true → dep t k = some d → Reaches dep rows d.1 d.2 →
+      Reaches dep rows t k
+
+theorem Reaches.mono {dep : Nat → Nat → Option (Nat × Nat)} {rows : List Row} (extra : List Row) {t k : Nat}
+    (h : Reaches dep rows t k) : Reaches dep (rows ++ extra) t k := by
+  induction h with
+  | genesis hk hd => exact .genesis (by simp [hasKey_append, hk]) hd
+  | step hk hd _ ih => exact .step (by simp [hasKey_append, hk]) hd ih
+
+theorem spec_closed_reaches (dep : Nat → Nat → Option (Nat × Nat)) (W : List Call) (hW : TopLevel W)
+    (hC : Causal dep W) (n : Nat) :
+    Closed dep (spec (W.take n)).1 ∧ ∀ r ∈ (spec (W.take n)).1, Reaches dep (spec (W.take n)).1 r.table r.key := by
+  induction n with
+  | zero => simp [spec, Closed]
+  | succ n ih =>
+    cases hn : W[n]? with
+    | none =>
+      have hlen : W.length ≤ n := by simpa using hn
+      have e1 : W.take (n + 1) = W.take n := by
+        rw [List.take_of_length_le hlen, List.take_of_length_le (by omega)]
+      rw [e1]; exact ih
+    | some c =>
+      have hc : wfInsertPath c.ops = true := hW c (List.mem_of_getElem? hn)
+      rw [take_succ_getElem W n c hn, spec_snoc]
+      rcases specStep_rows (spec (W.take n)) c hc with e | ⟨row, hrow, _, e⟩
+      · rw [e]; exact ih
+      · rw [e]
+        obtain ⟨ihc, ihr⟩ := ih
+        have hdep := hC n c hn row hrow
+        constructor
+        · intro r hr d hd
+          rcases List.mem_append.mp hr with h | h
+          · simp [hasKey_append, ihc r h d hd]
+          · simp at h; subst h
+            simp [hasKey_append, hdep d hd]
+        · intro r hr
+          rcases List.mem_append.mp hr with h | h
+          · exact (ihr r h).mono _
+          · simp at h; subst h
+            have hk : hasKey ((spec (W.take n)).1 ++ [r]) r.table r.key = true :=
+              hasKey_of_mem (List.mem_append.mpr (Or.inr (by simp)))
+            cases hd : dep r.table r.key with
+            | none => exact .genesis hk hd
+            | some d =>
+              obtain ⟨r', hr', ht, hkk⟩ := hasKey_exists (hdep d hd)
+              have := (ihr r' hr').mono [r]
+              rw [ht, hkk] at this
+              exact .step hk hd this
+
+/-! ### `open()` -/
+
+theorem schemaStep_tables_mono (s : OpenSt) (st : SchemaStmt) (t : Nat) (h : t ∈ s.tables) :
+    t ∈ (schemaStep s st).tables := by
+  cases st <;> simp [schemaStep, h]
+  split <;> simp [h]
+
+theorem foldl_schema_tables_mono (script : List SchemaStmt) :
+    ∀ (s : OpenSt) (t : Nat), t ∈ s.tables → t ∈ (script.foldl schemaStep s).tables := by
+  induction script with
+  | nil => intro s t h; exact h
+  | cons st rest ih => intro s t h; exact ih _ t (schemaStep_tables_mono s st t h)
+
+theorem foldl_schema_creates (script : List SchemaStmt) (t : Nat) (h : SchemaStmt.createTable t ∈ script) :
+    ∀ s : OpenSt, t ∈ (script.foldl schemaStep s).tables := by
+  induction script with
+  | nil => cases h
+  | cons st rest ih =>
+    intro s
+    rcases List.mem_cons.mp h with h1 | h1
+    · subst h1
+      rw [List.foldl_cons]
+      apply foldl_schema_tables_mono
+      show t ∈ (schemaStep s (.createTable t)).tables
+      unfold schemaStep
+      by_cases hc : s.tables.contains t = true
+      · simp only [hc, ↓reduceIte]; simpa using hc
+      · simp only [hc]; simp
+    · exact ih h1 _
+
+theorem schemaStep_option_mono (s : OpenSt) (st : SchemaStmt) (h : s.option = true) :
+    (schemaStep s st).option = true := by
+  cases st <;> simp [schemaStep, h]
+  split <;> simp [h]
+
+theorem foldl_schema_option (script : List SchemaStmt) (h : SchemaStmt.createOption ∈ script) :
+    ∀ s : OpenSt, (script.foldl schemaStep s).option = true := by
+  induction script with
+  | nil => cases h
+  | cons st rest ih =>
+    intro s
+    rcases List.mem_cons.mp h with h1 | h1
+    · subst h1
+      have : ∀ (r : List SchemaStmt) (s : OpenSt), s.option = true → (r.foldl schemaStep s).option = true := by
+        intro r
+        induction r with
+        | nil => intro s h; exact h
+        | cons a r ih2 => intro s h; exact ih2 _ (schemaStep_option_mono s a h)
+      exact this rest _ (by simp [schemaStep])
+    · exact ih h1 _
+
+theorem foldl_schema_version (pre : List SchemaStmt) (s : OpenSt) :
+    ((pre ++ [SchemaStmt.insertVersion]).foldl schemaStep s).version = true := by
+  simp [List.foldl_append, schemaStep]
+
+/-- a store can be opened whatever a kill left behind, also when the kill hit an earlier `open()`; a completed
+    open leaves the whole schema and the version row -/
+def OpenSafe (handlers : List ExcKind) (script : List SchemaStmt) (tables : List Nat) : Prop :=
+  ∀ (s : OpenSt) (n : Nat), ∃ s1, openDb handlers script n s = some s1 ∧
+    ∃ s2, openDb handlers script script.length s1 = some s2 ∧
+      (∀ t ∈ tables, t ∈ s2.tables) ∧ s2.option = true ∧ s2.version = true
+
+theorem openSafe_of (handlers : List ExcKind) (script : List SchemaStmt) (tables : List Nat)
+    (h1 : handlers.contains .stopIteration = true)
+    (h2 : ∀ t ∈ tables, SchemaStmt.createTable t ∈ script)
+    (h3 : SchemaStmt.createOption ∈ script)
+    (h4 : ∃ pre, script = pre ++ [SchemaStmt.insertVersion]) : OpenSafe handlers script tables := by
+  intro s n
+  have h1' : ExcKind.stopIteration ∈ handlers := by simpa using h1
+  have hok : ∀ s : OpenSt, versionReadOk handlers s = true := by
+    intro s; simp [versionReadOk, h1']
+  refine ⟨(script.take n).foldl schemaStep s, by simp [openDb, hok],
+    (script.take script.length).foldl schemaStep ((script.take n).foldl schemaStep s), by simp [openDb, hok], ?_, ?_, ?_⟩
+  all_goals rw [List.take_length]
+  · intro t ht; exact foldl_schema_creates script t (h2 t ht) _
+  · exact foldl_schema_option script h3 _
+  · obtain ⟨pre, hp⟩ := h4
+    rw [hp]; exact foldl_schema_version pre _
+
+/-! ### one row per primary key -/
+
+def KeysUnique (rows : List Row) : Prop :=
+  rows.Pairwise (fun a b => ¬ (a.table = b.table ∧ a.key = b.key))
+
+theorem hasKey_false {rows : List Row} {t k : Nat} (h : hasKey rows t k = false) :
+    ∀ a ∈ rows, ¬ (a.table = t ∧ a.key = k) := by
+  intro a ha hh
+  have := hasKey_of_mem ha
+  rw [hh.1, hh.2, h] at this
+  cases this
+
+theorem foldl_specStep_unique (W : List Call) (hW : TopLevel W) :
+    ∀ st : List Row × List Nat, KeysUnique st.1 → KeysUnique (W.foldl specStep st).1 := by
+  induction W with
+  | nil => intro st h; exact h
+  | cons c cs ih =>
+    intro st h
+    apply ih (fun x hx => hW x (by simp [hx]))
+    rcases specStep_rows st c (hW c (by simp)) with e | ⟨row, _, hk, e⟩
+    · rw [e]; exact h
+    · rw [e]
+      unfold KeysUnique
+      rw [List.pairwise_append]
+      refine ⟨h, by simp, ?_⟩
+      intro a ha b hb
+      simp at hb; subst hb
+      exact hasKey_false hk a ha
+
+theorem spec_unique (W : List Call) (hW : TopLevel W) : KeysUnique (spec W).1 :=
+  foldl_specStep_unique W hW ([], []) (by simp [KeysUnique])
+
+/-! ### inside a `with db:` block (`_pending_commits ≥ 1`): commits are only counted -/
+
+theorem doCommit_deferred (C : CommitMethod) (hC : wfCommit C = true) (db : Db) (h : 1 ≤ db.defer) :
+    doCommit C db = { db with defer := db.defer + 1 } := by
+  have hne : db.defer ≠ 0 := by omega
+  simp [doCommit, hne, wfCommit_deferred hC, commitBody]
+
+theorem doCommit_idle (C : CommitMethod) (hC : wfCommit C = true) (db : Db) (h : db.defer = 0) :
+    doCommit C db = { db with durable := db.work } := by
+  simp [doCommit, h, wfCommit_idle hC, commitBody]
+
+/-- crash inside an insert issued within a block: nothing becomes durable -/
+theorem runPrims_deferred (C : CommitMethod) (hC : wfCommit C = true) (c : Call) (t : Nat) (pol : Policy)
+    (db : Db) (h : 1 ≤ db.defer) (j : Nat) :
+    (runPrims C c j [.exec t pol, .callCommit, .ret] db).durable = db.durable := by
+  cases hins : insertRow pol ⟨t, c.key, c.val⟩ db.work with
+  | none =>
+    match j with
+    | 0 => simp [runPrims]
+    | j + 1 => simp [runPrims, stepPrim, hins]
+  | some w =>
+    have h' : 1 ≤ ({ db with work := w } : Db).defer := h
+    match j with
+    | 0 => simp [runPrims]
+    | 1 => simp [runPrims, stepPrim, hins]
+    | 2 => simp [runPrims, stepPrim, hins, doCommit_deferred C hC _ h']
+    | j + 3 => simp [runPrims, stepPrim, hins, doCommit_deferred C hC _ h']
+
+/-- a complete insert within a block: one reference step on the connection's image, one more pending commit -/
+theorem runCall_deferred (C : CommitMethod) (hC : wfCommit C = true) (c : Call) (hc : wfInsertPath c.ops = true)
+    (db : Db) (h : 1 ≤ db.defer) :
+    (runCall C db c).durable = db.durable ∧
+    (runCall C db c).work = (specStep (db.work, db.acks) c).1 ∧
+    (runCall C db c).acks = (specStep (db.work, db.acks) c).2 ∧
+    db.defer ≤ (runCall C db c).defer ∧
+    ((runCall C db c).defer = db.defer → (runCall C db c).work = db.work) := by
+  obtain ⟨t, pol, _, hops⟩ := wf_shape hc
+  rw [runCall, hops, specStep_shape _ c t pol _ hops]
+  cases hins : insertRow pol ⟨t, c.key, c.val⟩ db.work with
+  | none => simp [runPrims, stepPrim, hins]
+  | some w =>
+    have h' : 1 ≤ ({ db with work := w } : Db).defer := h
+    simp [runPrims, stepPrim, hins, doCommit_deferred C hC _ h']
+
+theorem runCalls_deferred (C : CommitMethod) (hC : wfCommit C = true) (B : List Call) (hB : TopLevel B) :
+    ∀ (db : Db), 1 ≤ db.defer →
+      (runCalls C B db).durable = db.durable ∧
+      (runCalls C B db).work = (B.foldl specStep (db.work, db.acks)).1 ∧
+      (runCalls C B db).acks = (B.foldl specStep (db.work, db.acks)).2 ∧
+      db.defer ≤ (runCalls C B db).defer ∧
+      ((runCalls C B db).defer = db.defer → (runCalls C B db).work = db.work) := by
+  induction B with
+  | nil => intro db _; simp [runCalls]
+  | cons c cs ih =>
+    intro db h
+    obtain ⟨h1, h2, h3, h4, h5⟩ := runCall_deferred C hC c (hB c (by simp)) db h
+    obtain ⟨i1, i2, i3, i4, i5⟩ := ih (fun x hx => hB x (by simp [hx])) (runCall C db c) (by omega)
+    simp only [runCalls, List.foldl_cons] at i1 i2 i3 i4 i5 ⊢
+    refine ⟨by rw [i1, h1], by rw [i2, h2, h3], by rw [i3, h2, h3], by omega, ?_⟩
+    intro he
+    have e1 : (runCall C db c).defer = db.defer := by omega
+    rw [i5 (by omega), h5 e1]
+
+theorem runCalls_append (C : CommitMethod) (A B : List Call) (db : Db) :
+    runCalls C (A ++ B) db = runCalls C B (runCalls C A db) := by
+  simp [runCalls, List.foldl_append]
+
 end Ipv8.C19
